@@ -81,7 +81,7 @@ CHECKS = {
   note='Trusted as C01; "never changes the source dictionaries" is established by the correspondence/oracle (a functional model cannot mutate); Database.alias adds an empty alias entry to a single source dict (not flagged, DESIGN.md 9).',
   ref='7 C19'),
  'C20': dict(
-  text='Lean model of the wrapper generator loop and __getitem__ (Model/Profile.lean): C20_iter_transparent, C20_iter_prefix, C20_hits_full, C20_hits_partial, C20_getitem_transparent, C20_shared_counts_under_copy, C20_failed_le_hits. Check: random pipelines plain versus profiled (iteration twice, len, ds[i], items(), behind thread prefetch), original object tree unchanged, counters of every wrapper compared with the number of examples fetched (formula of C20_hits_full), early stop, indexing.',
+  text='Lean model of the wrapper generator loop and __getitem__ (Model/Profile.lean): C20_iter_transparent, C20_iter_prefix, C20_hits_full, C20_hits_partial, C20_getitem_transparent, C20_shared_counts_under_copy, C20_failed_le_hits; C20_loop_eq_closed_form: the loop as written (count before the fetch, take it back on StopIteration, count an Exception as failed, a generator that is not resumed executes nothing) equals the closed form for every stream, demand and counter state. Check: random pipelines plain versus profiled (iteration twice, len, ds[i], items(), behind thread prefetch), original object tree unchanged, counters of every wrapper compared with the number of examples fetched (formula of C20_hits_full), early stop, indexing.',
   note='Trusted as C01; timing is not modelled; per-node counts are checked for pipelines of iterating stages whose iteration ends normally (with an error only the top node is fully consumed).',
   ref='7 C20'),
 }
